@@ -53,6 +53,7 @@ void do_plan(int tier)
     plan.init_threads = 0;
   }
   sim_set_cores(2 + (int)sim_plan(5));
+  sim_set_tso(sim_plan(4) == 0);
   plan.body_cost = (int)sim_plan(4);
   plan.spurious = (int)sim_plan(2);
   sim_set_spurious(plan.spurious);
